@@ -3,8 +3,8 @@
    Proofs/LambdaFinderWitness.v.
 
    [find P streams L is_lam dsrc caller args] (Model/LambdaFinder.v) is the token-level model of
-   util_ast._parse_source_for_lambda *with the fixes F15 and F15b*; [find_pinned] is the selection of
-   the pinned commit.  Inputs that are CPython's (tied to the code by correspondence only, never
+   util_ast._parse_source_for_lambda *with the fixes F15, F15b and F28* (the library at d451731);
+   [find_pinned] is the selection of the pinned commit, [find_kwname] the one before d451731 (F28).  Inputs that are CPython's (tied to the code by correspondence only, never
    proved): the token streams ([streams] = what tokenize yields from row L, L-1, ... with absolute
    rows), L (= inspect.findsource), [P] (= untokenize + ast.parse + first Lambda of an extent's
    tokens; every theorem is quantified over all P), [dsrc] (statement kinds of a def body).
@@ -19,8 +19,9 @@ Open Scope string_scope.
 (* SAFETY.  Whatever is returned is the lambda that was passed.  Hypotheses (boolean, evaluated by
    the harness on every generated layout): in the stream the answer refers to, tokenize's rows are
    monotone ([rows_okb]); token k0 is a `lambda` on row L whose nearest preceding NAME (no `,`/`)`
-   in between) is the caller and whose extent CPython parses to the parameters [args]
-   ([lambda_atb]); no earlier `lambda` token's argument extent reaches k0 ([not_nestedb]: the passed
+   in between; a NAME immediately followed by the OP `=` - the keyword of an argument, `f=lambda` -
+   does not count, the NAME before it does: [key_before]) is the caller and whose extent CPython
+   parses to the parameters [args] ([lambda_atb]); no earlier `lambda` token's argument extent reaches k0 ([not_nestedb]: the passed
    lambda is not written inside another lambda of the scanned region - func_adl never executes
    lambda bodies, so a nested lambda is never the callable).  Bracket balance is NOT needed. *)
 Theorem finder_never_picks_neighbour :
@@ -79,7 +80,9 @@ Print Assumptions finder_total.
         glue  NAME(f)  gap  `lambda`  body  stop        followed by [tail]
    glue = anything without a `lambda` NAME / NEWLINE token (for the first segment: anything at all
    without the keyword - in particular the unbalanced remainder `e.b)).` of an argument that began
-   on an earlier row), gap = no NAME and no NEWLINE (`(`, NL, comments, even `,`), body = the
+   on an earlier row), gap = no NEWLINE, not beginning with `=`, every NAME in it immediately followed
+   by `=` (`(`, NL, comments, even `,`; and since d451731 the keywords of arguments: `(f=`,
+   `(n=1, f=` - [gap_ok]), body = the
    argument (any tokens - strings, comments, nested lambdas, brackets - with no `,`/`)` at relative
    depth 0, balanced at its end), stop = `,` or `)`; only the last body may contain a line break,
    otherwise the rest of the logical line has no further `lambda`; CPython parses every segment's
@@ -92,7 +95,8 @@ Print Assumptions finder_total.
    constraint tells the segments apart (Example backslash_...; the pinned commit raises there).
    (c) a lambda that is not the first argument of its call is NOT recovered by the code (its nearest
    NAME is not the caller): that is a proved refusal, [finder_uncalled_raises]; (d) the def branch:
-   [def_supported], [def_exact], [def_found_only_own_return] below.
+   [def_supported], [def_exact], [def_found_only_own_return] below; (e) a lambda passed by keyword
+   (`m(k=lambda ...)`): [keyword_lambda_filed_under_method], [keyword_lambda_recovered] below.
    [finder_layout_outcome] gives the outcome on EVERY segment layout (= the three filters applied to
    the segments), of which supported / ambiguous / uncalled are corollaries.
    STILL MISSING from the full statement: (1) the family is over token streams per start row; that a
@@ -139,7 +143,8 @@ Proof. exact ambiguous_layout_raises. Qed.
 Print Assumptions finder_ambiguous_layout_raises.
 
 (* (c): no segment on the callable's row is preceded by the caller's name (lambda not the first
-   argument, passed by keyword, wrapped in a helper) => ValueError "Found no lambda in arguments to" *)
+   argument, wrapped in a helper; NOT a lambda passed by keyword - since d451731 its segment's name is
+   the method, see (e)) => ValueError "Found no lambda in arguments to" *)
 Theorem finder_uncalled_raises :
   forall P L dsrc caller args earlier more gs tail,
     forallb (backs_up P) earlier = true ->
@@ -213,6 +218,44 @@ Theorem def_found_only_own_return :
 Proof. exact LambdaFinderLayouts.def_found_only_own_return. Qed.
 Print Assumptions def_found_only_own_return.
 
+(* (e) A LAMBDA PASSED BY KEYWORD (finding F28, repaired by d451731).  Token layout
+        glue  NAME(m)  `(`  NAME(k)  `=`  `lambda`  body  stop   followed by [tail]      ([kw_toks])
+   (glue as for a first segment; m, k any NAMEs but `lambda`; rows arbitrary).  The scan records exactly
+   one candidate and files it under the METHOD name m that precedes the keyword - never under k - and
+   the outcome for every caller is the selection over that one candidate. *)
+Theorem keyword_lambda_filed_under_method :
+  forall P L dsrc caller args earlier more glue m mrow prow k krow erow lrow body stop tail,
+    forallb (backs_up P) earlier = true ->
+    forallb (glue_tok_ok true ["lambda"]) glue = true ->
+    m <> "lambda" -> k <> "lambda" ->
+    body_balanced body = true -> is_stop stop = true ->
+    seg_parsed P (kw_seg glue m mrow prow k krow erow lrow body stop) = true ->
+    (seg_saw (kw_seg glue m mrow prow k krow erow lrow body stop) || tail_ok tail) = true ->
+    scan_stream P ["lambda"] true (kw_toks glue m mrow prow k krow erow lrow body stop tail)
+    = ScDone [mkCand (Some m) (List.length glue + 4) (List.length glue + 4 + 1 + List.length body) lrow
+                     (P (mkTok lrow KName "lambda" :: filter not_comment body))]
+    /\ find P (earlier ++ kw_toks glue m mrow prow k krow erow lrow body stop tail :: more) L true dsrc caller args
+       = select true L caller args (List.length earlier)
+                [mkCand (Some m) (List.length glue + 4) (List.length glue + 4 + 1 + List.length body) lrow
+                        (P (mkTok lrow KName "lambda" :: filter not_comment body))].
+Proof. exact keyword_lambda_filed. Qed.
+Print Assumptions keyword_lambda_filed_under_method.
+
+(* ... hence it is a candidate for that caller: on the callable's row L and parsed to the callable's
+   parameter names, it is what `m(k=lambda ...)` records *)
+Theorem keyword_lambda_recovered :
+  forall P L dsrc args earlier more glue m mrow prow k krow erow body stop tail,
+    forallb (backs_up P) earlier = true ->
+    forallb (glue_tok_ok true ["lambda"]) glue = true ->
+    m <> "lambda" -> k <> "lambda" ->
+    body_balanced body = true -> is_stop stop = true ->
+    P (mkTok L KName "lambda" :: filter not_comment body) = PArgs args ->
+    (seg_saw (kw_seg glue m mrow prow k krow erow L body stop) || tail_ok tail) = true ->
+    find P (earlier ++ kw_toks glue m mrow prow k krow erow L body stop tail :: more) L true dsrc (Some m) args
+    = Found (List.length earlier) (List.length glue + 4).
+Proof. exact keyword_lambda_found. Qed.
+Print Assumptions keyword_lambda_recovered.
+
 (* THE PINNED COMMIT IS REFUTED (finding F15): with the selection that loses the line constraint
    the safety statement fails on the token stream of
        ds.Select(lambda j: j.jets.Select(
@@ -242,6 +285,22 @@ Theorem lambda_never_def_pinned_refuted :
   exists P streams L dsrc caller args, find_pinned P streams L true dsrc caller args = FoundDef.
 Proof. exact defkw_refuted. Qed.
 Print Assumptions lambda_never_def_pinned_refuted.
+
+(* finding F28: THE SELECTION BEFORE d451731 IS REFUTED.  find_identifier returned the NAME before
+   `lambda`; for a lambda passed by keyword that is the keyword, so the lambda was filed under the
+   keyword's name.  On the token stream of
+       r = ds.Select(lambda e: e.a).Select(f=lambda e: e.b)
+   the second call's lambda (token 18; caller Select by [lambda_atb]) is filed under `f`, the only
+   candidate of Select is the first call's lambda (token 6), and that one is returned - silently -
+   for the second call.  The same holds for the pinned selection. *)
+Example keyword_lambda_filed_under_keyword_pinned_refuted :
+  exists P streams L dsrc caller args s k toks k0,
+    find_kwname P streams L true dsrc (Some caller) args = Found s k /\
+    find_pinned P streams L true dsrc (Some caller) args = Found s k /\
+    nth_error streams s = Some toks /\ rows_okb toks = true /\
+    lambda_atb P toks k0 L caller args = true /\ not_nestedb toks k0 = true /\ k <> k0.
+Proof. exact kwname_refuted. Qed.
+Print Assumptions keyword_lambda_filed_under_keyword_pinned_refuted.
 
 (* ---- non-vacuity: documented layouts meet the hypotheses and are found ---- *)
 (* black-style chain, the .Where line (with a trailing comment holding `lambda e: (`) *)
@@ -355,4 +414,40 @@ Example nesting_example :
                 T 1 KOp ")"; T 1 KOp "]"; T 1 KOp "}"] = true
   /\ nested_ok [] [T 1 KOp "("; T 1 KOp "["; T 1 KOp ")"; T 1 KOp "]"] = false
   /\ body_balanced [T 1 KOp "("; T 1 KOp "["; T 1 KOp ")"; T 1 KOp "]"] = true.
+Proof. vm_compute. repeat split. Qed.
+
+(* (e) non-vacuity of keyword_lambda_filed_under_method / keyword_lambda_recovered on
+       r = ds.Select(f=lambda e: e.b)
+   the stream is the layout, every hypothesis holds, the candidate's key is Select and the lambda (token
+   8) is returned for the caller Select; before d451731 the same call raised "Found no lambda in
+   arguments to Select" (the candidate's key was f) *)
+Example keyword_lambda_hypotheses_met :
+  kw_toks [T 1 KName "r"; T 1 KOp "="; T 1 KName "ds"; T 1 KOp "."] "Select" 1 1 "f" 1 1 1 kw_body_b (T 1 KOp ")") kwone_tail
+  = kwone_s0
+  /\ forallb (glue_tok_ok true ["lambda"]) [T 1 KName "r"; T 1 KOp "="; T 1 KName "ds"; T 1 KOp "."] = true
+  /\ body_balanced kw_body_b = true /\ is_stop (T 1 KOp ")") = true
+  /\ P_names (T 1 KName "lambda" :: filter not_comment kw_body_b) = PArgs ["e"]
+  /\ tail_ok kwone_tail = true
+  /\ scan_stream P_names ["lambda"] true kwone_s0 = ScDone [mkCand (Some "Select") 8 14 1 (PArgs ["e"])]
+  /\ scan_stream P_names ["lambda"] false kwone_s0 = ScDone [mkCand (Some "f") 8 14 1 (PArgs ["e"])]
+  /\ find P_names [kwone_s0] 1 true (DSBody []) (Some "Select") ["e"] = Found 0 8
+  /\ find_kwname P_names [kwone_s0] 1 true (DSBody []) (Some "Select") ["e"] = Err ENoLambda.
+Proof. vm_compute. repeat split. Qed.
+
+(* keyword lambdas are instances of the segment family (the keyword and its `=` are part of the gap): alone
+   on a line; chained with a positional lambda on the same line - same method and parameter names: both calls
+   raise "multiple" now (allowed), nothing is mis-recorded; on its own line below the call, reached by backing
+   up from a row that starts with the keyword *)
+Example keyword_lambda_is_supported_layout :
+  layout_toks [kwone_g1] kwone_tail = kwone_s0
+  /\ recognisedb P_names 1 "Select" ["e"] [] kwone_g1 [] kwone_tail = true
+  /\ lambda_atb P_names kwone_s0 8 1 "Select" ["e"] = true /\ not_nestedb kwone_s0 8 = true
+  /\ layout_toks [kwtwo_g1; kwtwo_g2] kwone_tail = kwtwo_s0
+  /\ segs_ok true ["lambda"] [kwtwo_g1; kwtwo_g2] = true
+  /\ seg_matches P_names 1 "Select" ["e"] kwtwo_g1 = true /\ seg_matches P_names 1 "Select" ["e"] kwtwo_g2 = true
+  /\ find P_names [kwtwo_s0] 1 true (DSBody []) (Some "Select") ["e"] = Err EMultiple
+  /\ layout_toks [kwown_g1] kwown_tail = kwown_s1 /\ forallb (backs_up P_names) [kwown_s0] = true
+  /\ recognisedb P_names 2 "Select" ["e"] [] kwown_g1 [] kwown_tail = true
+  /\ find P_names [kwown_s0; kwown_s1] 2 true (DSBody []) (Some "Select") ["e"] = Found 1 9
+  /\ find_kwname P_names [kwown_s0; kwown_s1] 2 true (DSBody []) (Some "Select") ["e"] = Err ENoLambda.
 Proof. vm_compute. repeat split. Qed.
